@@ -456,6 +456,8 @@ def direct_place(b, op, depth=8):
     """Follow single-definition copies, moves, reborrows and casts from an operand back to the place it
     denotes (no slicing): returns the place or None."""
     pl = op_place(op) if isinstance(op, dict) and ("c" in op or "m" in op) else op
+    if isinstance(pl, dict) and "p" not in pl:
+        return None  # a constant operand
     while pl is not None and depth > 0:
         depth -= 1
         if any(isinstance(e, dict) and "f" in e for e in pl["p"]):
